@@ -88,9 +88,9 @@ def run_tlc(module, cfg, *, workers=1, timeout=900, files=None, env=None, heap="
         if workers == 1 and not full_jit:
             # many short single-worker JVMs side by side: C1 only and serial GC avoid the
             # compiler/GC thread storm (measured: 3x less CPU for runs of a few seconds)
-            jopts = ["-XX:+UseSerialGC", "-XX:TieredStopAtLevel=1", "-Xms128m", "-Xmx" + heap, "-Xss16m"]
+            jopts = ["-XX:+UseSerialGC", "-XX:TieredStopAtLevel=1", "-Xms128m", "-Xmx" + heap, "-Xss64m"]
         else:
-            jopts = ["-XX:+UseParallelGC", "-XX:ParallelGCThreads=%d" % max(2, min(8, workers)), "-Xmx" + heap, "-Xss16m"]
+            jopts = ["-XX:+UseParallelGC", "-XX:ParallelGCThreads=%d" % max(2, min(8, workers)), "-Xmx" + heap, "-Xss64m"]
         if deque:
             jopts.append("-Dtlc2.tool.queue.IStateQueue=StateDeque")
         jopts.append("-Djava.io.tmpdir=" + d)       # SANY unpacks the standard modules into a temporary directory per run
